@@ -84,6 +84,14 @@ class Registry:
                     ty0 = ty.split('<')[0].strip()
                     if ty0.startswith('$'):
                         continue
+                    if ty0 == 'I' and trait and trait.startswith('LogSumExp'):
+                        # blanket impl on iterators of f64: modelled as a free function of a list
+                        for f in fns:
+                            f2 = ('fn', f[1], [(('pvar', 'self'), 'Vec < f64 >')], f[3], f[4], f[5], [], True)
+                            fi = FnInfo(rel, '', None, None, [], f2, in_macro)
+                            self.free[f[1]] = fi
+                            self.free_by_file.setdefault(rel, {})[f[1]] = fi
+                        continue
                     if trait is None:
                         for f in fns:
                             fi0 = FnInfo(rel, ty0, None, None, [], f, in_macro)
